@@ -85,7 +85,7 @@ type c04Case struct {
 
 const c04Rule = "case = protocol (ipfix | nf9) + 2..6 (exporter address, template id) slots (IPv4 4-byte, IPv4-mapped, IPv6; ids shared across exporters; adversarial pairs that collide on the cache's " +
 	"full 32-bit FNV-1 hash, share a shard, or share a shard and have the same text when address and id are written without separator; found by searching ~1.5M keys) + 2..30 operations: announce (alone or with data in the same message), re-announce with a different definition " +
-	"(same record length with other elements, same elements with other field lengths, a fresh template, or fields of length zero: then data naming the id must yield nothing), field-less template records ([id,0] and [2,0], alone or with re-announcements behind them in the same set: a re-announced id has the new definition, an id the record does not concern is untouched, the named id decodes as before or yields nothing plus an error), drawn export times, malformed messages in which a variable-length record runs past the end of its set over octets that would read as a template set (ipfix: the slot keeps the template announced last), data under the model's current template, data for a never-announced slot, peer Get (ipfix), and messages mixing data sets and (re-)announcements of several ids of one exporter in any order, in a quarter of them with 1..80 data sets of never-announced templates in front of some of the sets; " +
+	"(same record length with other elements, same elements with other field lengths, a fresh template, or fields of length zero: then data naming the id must yield nothing), field-less template records ([id,0] and [2,0], alone or with re-announcements behind them in the same set: a re-announced id has the new definition, an id the record does not concern is untouched, the named id decodes as before or yields nothing plus an error), drawn export times, malformed messages in which a variable-length record runs past the end of its set over octets that would read as a template set (ipfix: the slot keeps the template announced last), data under the model's current template, data for a never-announced slot, peer Get (ipfix), and messages mixing data sets and (re-)announcements of several ids of one exporter in any order (in a quarter of the multi-template messages 13..40 template records, the same ids announced over and over: the last record of an id counts), in a quarter of them with 1..80 data sets of never-announced templates in front of some of the sets; " +
 	"invariant after every step = decode equals the reference expectation under the model's template for exactly that slot, unannounced slots give an 'unknown template' error and no records, peer Get returns the model's template or 'not available'; " +
 	"non-trivial = a re-announcement followed by data, or >= 2 exporters using one id with different definitions, or a colliding pair in use; distinct by hash"
 
@@ -383,6 +383,22 @@ func genC04(t *rapid.T, proto string, env *wire.GenEnv, opts ...string) c04Case 
 				op.Sets = append(op.Sets, c04MixedSet{Slot: j, Tpl: &tp, Join: true})
 				model[j] = &tp
 				delete(tolerant, j)
+			}
+			if rapid.IntRange(0, 3).Draw(t, "manyrecords") == 0 {
+				// a long template set: the same few ids announced over and over, 13..40 records in all (counts around the
+				// 4- and 5-bit marks); whatever the set's length, the last record of an id is the one in force
+				for total := rapid.SampledFrom([]int{13, 14, 15, 16, 17, 24, 31, 32, 33, 40}).Draw(t, "nrecords"); len(op.Sets) < total; {
+					j := same[rapid.IntRange(0, len(same)-1).Draw(t, "againslot")]
+					var tp wire.Template
+					if rapid.Bool().Draw(t, "againredef") {
+						tp = redefineSameLength(t, env, model[j])
+					} else {
+						tp = env.GenTemplate(t, c.Slots[j].ID)
+					}
+					// (records of the other kind, plain / options, open a set of their own: Join only joins same-kind sets)
+					op.Sets = append(op.Sets, c04MixedSet{Slot: j, Tpl: &tp, Join: true})
+					model[j] = &tp
+				}
 			}
 			for k, nd := 0, rapid.IntRange(1, 3).Draw(t, "multidata"); k < nd; k++ {
 				j := same[rapid.IntRange(0, len(same)-1).Draw(t, "multidataslot")]
